@@ -29,6 +29,8 @@ class NodeState(object):
         self.objs = {}  # named python objects kept between ops (merge outputs ...)
         self.ledgers = {}  # source delivery ledgers
         self.serial = 0
+        self.allow_prelude = True
+        self.prelude_done = False
 
 
 def _path(st, name):
@@ -254,7 +256,7 @@ def make_source(st, spec, led_name):
 # ----------------------------------------------------------------------------- dumps
 
 
-def fdict(f, with_line=True):
+def fdict(f, with_line=True, scribble=False):
     # print first: printing a feature must not change what it holds
     line = str(f) if with_line else None
     d = {
@@ -267,11 +269,33 @@ def fdict(f, with_line=True):
     if with_line:
         d["line"] = line
         d["line2"] = str(f)
+    if scribble:
+        _scribble(f)
     return d
 
 
+def _scribble(f):
+    """What callers do with a feature they were handed: edit it in memory and throw it away.  Nothing of it may
+    ever be seen again (no cache, no shared list, no write-back)."""
+    try:
+        for k in list(f.attributes.keys()):
+            v = f.attributes[k]
+            if isinstance(v, list):
+                v.append("~scribble")
+        f.attributes["~scribble"] = ["1"]
+        if isinstance(f.extra, list):
+            f.extra.append("~s")
+        f.seqid = "~"
+        f.start = 1
+        f.end = 2
+        f.strand = "~"
+        f.id = "~"
+    except Exception:
+        pass
+
+
 def api_dump(db, relations=True):
-    feats = [fdict(f) for f in db.all_features()]
+    feats = [fdict(f, scribble=True) for f in db.all_features()]
     out = {"features": feats, "directives": list(db.directives), "dialect": db.dialect}
     if relations:
         rel = {}
@@ -309,6 +333,9 @@ def _criteria(spec):
             out.append(CRITERIA[s])
         else:
             name, thr = s
+            if name == "max_members":
+                out.append(lambda acc, cur, components, k=thr: len(components) < k)
+                continue
             out.append({"end_thr": mc.overlap_end_threshold, "start_thr": mc.overlap_start_threshold,
                         "any_thr": mc.overlap_any_threshold}[name](thr))
     return out
@@ -493,7 +520,7 @@ def op_get(st, op):
     if op.get("as_feature"):
         key = db[key]
     f = db[key]
-    return {"f": fdict(f)}
+    return {"f": fdict(f, scribble=True)}
 
 
 def _consume(it, how):
@@ -527,12 +554,14 @@ def op_read(st, op):
     if m in ("all_features", "features_of_type", "children", "parents", "region"):
         res, keep = _consume(getattr(db, m)(*a, **kw), how)
         out = [x.id for x in res] if not op.get("full") else [fdict(x) for x in res]
+        for x in res:
+            _scribble(x)
     elif m in ("count_features_of_type",):
         out = db.count_features_of_type(*a, **kw)
     elif m in ("featuretypes", "seqids"):
         out = list(getattr(db, m)())
     elif m == "getitem":
-        out = fdict(db[a[0]])
+        out = fdict(db[a[0]], scribble=True)
     elif m == "iter_by_parent_childs":
         res, keep = _consume(db.iter_by_parent_childs(*a, **kw), how)
         out = [[x.id for x in grp] for grp in res]
@@ -584,9 +613,15 @@ def op_interleave(st, op):
         if done[i]:
             return
         try:
-            outs[i].append(next(gens[i]).id)
+            x = next(gens[i])
+            outs[i].append(x.id if hasattr(x, "id") else x)
         except StopIteration:
             done[i] = True
+        for pk in op.get("poke") or ():
+            # a one-shot call made between two steps (what the body of a `for t in db.featuretypes():` loop does)
+            r = getattr(db, pk["m"])(*(pk.get("args") or []))
+            if not isinstance(r, (int, str)):
+                list(r)
 
     for i in op["schedule"]:
         step(i % len(gens))
@@ -737,6 +772,26 @@ def op_dataiter(st, op):
         gc.collect()
         return {"passes": [{"features": feats, "directives": d1}, {"features": feats, "directives": list(it.directives)}],
                 "peek_directives": peek_dirs, "dialect": it.dialect, "ledger": st.ledgers.get(led)}
+    if op.get("companion"):
+        # another file is read by another iterator at the same time, the two advanced alternately (zip-style)
+        comp = op["companion"]
+        it2 = giterators.DataIterator(comp["text"], from_string=True)
+        g1, g2 = iter(it), iter(it2)
+        outs = ([], [])
+        live = [True, True]
+        sched = list(comp.get("schedule") or []) + [0, 1] * 100000
+        for w in sched:
+            if not (live[0] or live[1]):
+                break
+            if not live[w]:
+                w = 1 - w
+            try:
+                f = next((g1, g2)[w])
+                outs[w].append(fdict(f) if w == 0 else f.id)
+            except StopIteration:
+                live[w] = False
+        return {"passes": [{"features": outs[0], "directives": list(it.directives)}], "peek_directives": peek_dirs, "dialect": it.dialect,
+                "ledger": st.ledgers.get(led), "companion": {"ids": outs[1], "directives": list(it2.directives)}}
     for _ in range(op.get("passes", 1)):
         feats = [fdict(f) for f in it]
         passes.append({"features": feats, "directives": list(it.directives)})
@@ -828,10 +883,87 @@ OPS = {
 HARNESS_OPS = ("dump", "conn_state", "ls", "gc", "drop", "export", "symlink")
 
 
+PRELUDE_GFF3 = """##gff-version 3
+##prelude other-annotation
+chrP\tpre\tgene\t1000\t9000\t.\t-\t.\tID=a;Name=n1
+chrP\tpre\tmRNA\t1000\t9000\t.\t-\t.\tID=b;Parent=a
+chrP\tpre\texon\t1000\t2000\t.\t-\t.\tID=c;Parent=b
+chrP\talt\texon\t1000\t2000\t5\t-\t.\tID=c;Parent=b;note=y
+chrP\tpre\texon\t140000\t150000\t.\t-\t.\tID=d;Parent=b
+chrP\tpre\tCDS\t1500\t1800\t.\t-\t0\tParent=b
+chrP\tpre\tgene\t1\t8\t.\t+\t.\tID=g
+chrP\tpre\texon\t1\t4\t.\t+\t.\tID=i0;Parent=g
+chrP\tpre\texon\t3\t8\t.\t+\t.\tID=i1;Parent=g
+"""
+PRELUDE_GTF = """chrP\tpre\texon\t7000\t7100\t.\t-\t.\tgene_id "G1"; transcript_id "T1";
+chrP\tpre\texon\t7300\t7900\t.\t-\t.\tgene_id "G1"; transcript_id "T1";
+chrP\tpre\texon\t8000\t8100\t.\t-\t.\tgene_id "G2"; transcript_id "T2";
+chrP\tpre\tCDS\t8000\t8050\t.\t-\t0\tgene_id "G2"; transcript_id "T2";
+"""
+
+
+def run_prelude(st):
+    """Process reuse (DESIGN 2.6b, knob `prelude`): before the first operation of the case this process has
+    already done unrelated gffutils work - another annotation imported with other settings into its own
+    files, queried, merged, inspected, one of its features edited in memory.  Nothing of that may show in
+    what follows.  Runs outside any op window: no seam point is counted, parked or faulted; its own outcome
+    is not judged."""
+    import warnings
+    from gffutils import inspect as ginspect
+
+    d = os.path.join(st.world, "pre%d" % st.node_id)
+    os.makedirs(d, exist_ok=True)
+    gff = os.path.join(d, "other.gff3")
+    gtf = os.path.join(d, "other.gtf")
+    with seams._real_open(gff, "w") as fh:
+        fh.write(PRELUDE_GFF3)
+    with seams._real_open(gtf, "w") as fh:
+        fh.write(PRELUDE_GTF)
+    with warnings.catch_warnings():
+        warnings.simplefilter("ignore")
+        try:
+            db = gffutils.create_db(gff, os.path.join(d, "other.db"), merge_strategy="merge", force_merge_fields=["source", "score"],
+                                    id_spec=["ID", "Name"], keep_order=True, sort_attribute_values=True,
+                                    pragmas={"synchronous": "OFF", "journal_mode": "WAL", "main.cache_size": 50})
+            list(db.all_features(limit=("chrP", 1, 200000), completely_within=True, order_by=("length", "seqid"), reverse=True))
+            list(db.region(region=("chrP", 1, 200000), completely_within=True, featuretype=["exon", "CDS"]))
+            list(db.children("a", featuretype=["mRNA", "exon"], order_by="start"))
+            list(db.parents("c", level=2))
+            db.children_bp("g", child_featuretype="exon", merge=True)
+            list(db.merge(db.features_of_type("exon", order_by=("seqid", "strand", "start"))))
+            list(db.featuretypes())
+            db.count_features_of_type("exon")
+            for key in ("a", "b", "g"):
+                f = db[key]
+                f.attributes["ID"].append("scratch")  # edited in memory only, never written back
+                f.attributes["Note"] = ["scratch"]
+                f.start = 1
+            db.update("chrP\tpre\tgene\t5\t6\t.\t+\t.\tID=a;Name=other\n", from_string=True, merge_strategy="replace", make_backup=False)
+            db.delete(["d"], make_backup=False)
+            ginspect.inspect(gff, verbose=False)
+            it = giterators.DataIterator(gff)
+            for _f in it:
+                break
+            st.objs["_prelude/it"] = it  # a partly consumed iterator of that other file stays alive
+            db2 = gffutils.create_db(gtf, os.path.join(d, "other_gtf.db"))
+            list(db2.all_features())
+            db3 = gffutils.create_db([x for x in db.all_features()], ":memory:", merge_strategy="create_unique")
+            list(db3.all_features())
+        except Exception:
+            pass
+    f = db = db2 = db3 = it = None
+    gc.collect()
+    env._used("prelude")
+
+
 def execute(st, op):
     ctx = st.ctx
     name = op["op"]
     fn = OPS[name]
+    if not st.prelude_done:
+        st.prelude_done = True
+        if st.allow_prelude and env.ENV.get("prelude"):
+            run_prelude(st)
     ctx.begin_op(op.get("faults"))
     ctx.short_writes = bool(op.get("short_writes"))
     res = {"ok": True}
